@@ -450,6 +450,7 @@ func runConsumers(w *out.W, tier string) {
 		{"t3"},                               // one pattern (control)
 		{"t4", "t3"},                         // the order swapped (first one matches only the desired state)
 		{"*.c4[type=column]", "t?.j2", "t3"}, //
+		{"t9", "*"},                          // the literal * of the mode shortcut (sqlx.ModeInspectSchema), second
 	}
 	if tier == "thorough" {
 		lists = append(lists, []string{"a*", "b*", "c*", "t3"}, []string{"t1.*[type=index]", "t2.*[type=index]", "users"},
